@@ -100,7 +100,11 @@ Cases == {[pos |-> pos, kind |-> kind, route |-> route, pol |-> pol, r2 |-> "non
          \cup (IF Depth2 THEN {[pos |-> pos, kind |-> kind, route |-> route, pol |-> pol, r2 |-> r2]
             : pos \in Positions \ ModCall, kind \in {"fn", "filter"},
               route \in {"include", "includeonly", "import", "extendsblock"},
-              r2 \in Routes1 \ {"direct"}, pol \in {"forbid", "allow"}} ELSE {})
+              r2 \in Routes1 \ {"direct"}, pol \in {"forbid", "allow"}}
+               \* (in the quick tier: every pair of routes for one position)
+               ELSE {[pos |-> pos, kind |-> kind, route |-> route, pol |-> pol, r2 |-> r2]
+                       : pos \in {"print", "forseq"}, kind \in {"fn", "filter"}, route \in {"include", "includeonly", "import", "extendsblock"},
+                         r2 \in Routes1 \ {"direct"}, pol \in {"forbid", "allow"}})
 PreCases == {[pos |-> pos, kind |-> kind, route |-> route, pol |-> pol, r2 |-> "none", pre |-> pre]
                : pos \in {"print", "forseq", "chainupper", "ifcond", "set"}, kind \in {"fn", "filter"}, route \in {"direct", "include", "extendsblock", "localmacro"},
                  pol \in {"forbid", "allow"}, pre \in Pres \ {"none"}}
@@ -128,8 +132,11 @@ Tp(c) ==
                                                       @@ ("t4" :> <<T(<<60>>), Block("bb", <<T(<<100>>)>>), T(<<62>>)>>))
                          @@ second
     IN ("main" :> <<PrintS(Spy("spx", "o1", LI(0))), PrintS(SpyF("sfx", "o2", LI(0))), T(<<91>>),
-                    Include(LS(NT.t1), Lit(Null), FALSE, FALSE, FALSE, TRUE), T(<<93>>)>>)
-       @@ below @@ ("t5" :> <<PrintS(Var("z"))>>)
+                    Include(LS(NT.t1), Lit(Null), FALSE, FALSE, FALSE, TRUE), T(<<93>>),
+                    \* after the sandboxed include the including template is as free as before it: a plain include and a
+                    \* print tag that use a filter the policy does not list
+                    Inc(LS(NT.t0)), Include(LS(NT.t0), Hash(<<LS(NT.q)>>, <<LI(1)>>), TRUE, FALSE, FALSE, FALSE), PrintS(Filt("lower", LS(<<82>>), <<>>))>>)
+       @@ below @@ ("t5" :> <<PrintS(Var("z"))>>) @@ ("t0" :> <<PrintS(Filt("lower", LS(<<81>>), <<>>)), PrintS(Filt("reverse", LS(<<120, 121>>), <<>>))>>)
 
 World(c) == MkW(Tp(c), AllowF(c.pol), AllowFn(c.pol), NoFault)
 Ref(c) == Render(World(c), "main", EmptyFn)
